@@ -30,7 +30,9 @@ def relate_more_pv(has_cogen):
         if fa.get("k_exp") == 0:
             x, y = fa.get("rer", Fraction(0)), fb.get("rer", Fraction(0))
             tot = fa.get("balance/we/b/0", Fraction(0)) + fa.get("balance/we/b/1", Fraction(0))
-            if tot > 0 and y < x - Fraction(1, 10 ** 4):
+            totv = fb.get("balance/we/b/0", Fraction(0)) + fb.get("balance/we/b/1", Fraction(0))
+            # both totals above rounding noise (a ratio of noise says nothing), as in C13
+            if tot > 64 * tol and totv > 64 * tol and y < x - Fraction(1, 10 ** 4):
                 what = "more on-site electricity lowers RER (k_exp = 0)"
                 if has_cogen:
                     what = "KNOWN:renewable-cogeneration:" + what
